@@ -32,7 +32,7 @@ func init() {
 }
 
 func c18worker(arg string) {
-	c := &c20ctx{out: newWorkerOut(), st: &wStats{Shard: arg, MinBound: -1, Extra: map[string]int{}}, states: map[string]struct{}{}}
+	c := &c20ctx{check: "C18", out: newWorkerOut(), st: &wStats{Shard: arg, MinBound: -1, Extra: map[string]int{}}, states: map[string]struct{}{}}
 	c.deadline = time.Now().Add(3 * time.Minute)
 	c.budget = 200000
 	if thorough {
